@@ -986,7 +986,7 @@ func (prop) Gen(r *core.Rand, tier string) []core.Case {
 	// encBudget (in chunks) bounds that work in the quick tier; when it is spent, objects are drawn plain.
 	encBudget := 200
 	if tier == "thorough" {
-		n, budget, encBudget = 200, 700, 1 << 30
+		n, budget, encBudget = 200, 700, 1<<30
 	}
 	var cs []core.Case
 	cs = append(cs,
